@@ -24,14 +24,18 @@ raises UNSUPPORTED file:line):
      `int w = snprintf(..)` or inside `if (snprintf(..) >= N) die(..)`: `bind (c_snprintf N fmt [args]) (fun r_ => ...)`
      binding the returned length and the buffer content;
   6. `T *x = malloc(sizeof(*x));`  ->  `bind malloc_<T> (fun x => ..)`; `DL_APPEND(rthread.f, x)` -> `DL_APPEND_rthread_f x`;
-  7. functions that return a value after guards (ovni_attr_has, ovni_attr_get_*): kind `mval`, `return e;` = `eval e`.
+  7. functions that return a value after guards (ovni_attr_has, ovni_attr_get_*): kind `mval`, `return e;` = `eval e`;
+  8. `memset(&rthread, 0, sizeof(rthread))` (exactly this shape) -> `zero_rthread`; `strcpy(rproc.f, src)` -> `strcpy_rproc_f`;
+     `bool ok = atomic_compare_exchange_strong(&rproc.f, &local, v)` -> `bind (cas_rproc_f local v)` binding the flag and the
+     value seen; `atomic_store(&rproc.f, v)` -> `set_rproc_f`; `die(..)` as a statement (else-if chains) -> `fail E_DIE`;
+     conversions between pointer types the prelude identifies (void * / uint8_t *) are dropped.
+  9. set_thread_cpus (a `for` loop over the DL list building a JSON array) is NOT rendered statement by statement: the unit
+     accepts it only in the exact counted shape described at _loop_function and renders it as the fold
+     `array_of_list_loop meta "ovni.loom_cpus" <list> [("index", field index); ("phyid", field phyid)]`: the key, the member
+     names, their order and the field behind each come from the source; what the parson calls inside the loop do (fresh
+     object, json_object_set_number = set_value, append in order) is the meaning of that primitive in RtMetaPre.v.
 Not translated (the construct that stops the subset):
-  - set_thread_cpus: a `for` loop over the DL list building a JSON array; it is the primitive fold
-    `set_thread_cpus` of RtMetaPre.v (json_value_init_array, one object {index, phyid} per registered CPU in list order,
-    json_object_dotset_value "ovni.loom_cpus");
-  - ovni_thread_init: `memset(&rthread, 0, sizeof(rthread))` (address of the whole global) and the result of malloc stored
-    straight into a field; its metadata part is the translated thread_metadata_init + ovni_thread_require;
-  - ovni_proc_init / ovni_proc_fini: atomic_compare_exchange_strong with a local by address, strcpy, getenv;
+  - ovni_proc_fini: atomic_compare_exchange_strong + try_clean_dir only: nothing of the metadata state but rproc.st;
   - ovni_mark_type / ovni_mark_label: `cond ? "stack" : "single"` on strings and `title[0] == '\\0'` (char subscripts).
 """
 import importlib.util
@@ -45,10 +49,10 @@ _spec.loader.exec_module(S)
 FUNCS = os.environ.get(
     "RTMETA_FUNCS",
     "thread_metadata_store:proc,ovni_thread_require:proc,thread_metadata_populate:proc,thread_metadata_init:proc,"
-    "set_thread_rank:proc,ovni_add_cpu:proc,ovni_proc_set_rank:proc,get_thread_metadata:alloc,"
+    "set_thread_rank:proc,set_thread_cpus:proc,ovni_add_cpu:proc,ovni_proc_set_rank:proc,get_thread_metadata:alloc,"
     "ovni_attr_has:mval,ovni_attr_set_double:proc,ovni_attr_get_double:mval,ovni_attr_get_boolean:mval,"
     "ovni_attr_set_boolean:proc,ovni_attr_set_str:proc,ovni_attr_get_str:mval,ovni_attr_set_json:proc,"
-    "ovni_attr_get_json:mval,ovni_attr_flush:proc,ovni_thread_free:proc").split(",")
+    "ovni_attr_get_json:mval,ovni_attr_flush:proc,ovni_thread_free:proc,ovni_thread_init:proc,ovni_proc_init:proc").split(",")
 UNITS = [("src/rt/ovni.c", [tuple(f.split(":")) for f in FUNCS])]
 
 GLOBALS = {"rthread", "rproc"}
@@ -146,6 +150,11 @@ def _e_val(self, n, env):
     if k in ("ImplicitCastExpr", "CStyleCastExpr") and n.get("castKind") == "BitCast" and S._norm_ptr(S._qt(n)) == "void *" \
             and S._norm_ptr(S._qt(n["inner"][0])) in S.PTR and not self.cg._is_null(n):
         # pointer handed to a foreign call (free): passed as it is
+        return self.e_val(n["inner"][0], env)
+    if k in ("ImplicitCastExpr", "CStyleCastExpr") and n.get("castKind") == "BitCast" and not self.cg._is_null(n) \
+            and S._norm_ptr(S._qt(n)) in S.PTR and S._norm_ptr(S._qt(n["inner"][0])) in S.PTR \
+            and S.PTR[S._norm_ptr(S._qt(n))][0] == S.PTR[S._norm_ptr(S._qt(n["inner"][0]))][0]:
+        # conversion between two pointer types the prelude does not distinguish (void * <-> uint8_t *)
         return self.e_val(n["inner"][0], env)
     if k == "AtomicExpr":
         inner = [c for c in n.get("inner", []) if isinstance(c, dict)]
@@ -268,6 +277,75 @@ def _stmts(self, ss, env, kind):
         if gm is not None:
             v = self.e_val(rhs, env)
             return self.needed(v.safe, "bind_ (set_%s_%s %s)\n(%s)" % (gm[0], gm[1], self.fn_of_state(v.t), self.stmts(rest, env, kind)))
+    # ---- die(...) as a statement (else-if chains of refusals): the function does not return
+    if k == "CallExpr" and S._callee(s) == "vdie":
+        return "fail E_DIE"
+    # ---- bool ok = atomic_compare_exchange_strong(&global.f, &local, desired): success flag and the value seen
+    if k == "DeclStmt" and len(s["inner"]) == 1 and s["inner"][0].get("kind") == "VarDecl":
+        v0 = s["inner"][0]
+        ini0 = [c for c in v0.get("inner", []) if c.get("kind") not in ("FullComment",)]
+        if ini0 and S._strip(ini0[0]).get("kind") == "AtomicExpr":
+            ae = S._strip(ini0[0])
+            inner = [c for c in ae.get("inner", []) if isinstance(c, dict)]
+            if len(inner) == 5:
+                a0, a2 = S._strip(inner[0]), S._strip(inner[2])
+                gm = _global_member(a0["inner"][0]) if a0.get("kind") == "UnaryOperator" and a0.get("opcode") == "&" else None
+                loc = S._strip(a2["inner"][0]) if a2.get("kind") == "UnaryOperator" and a2.get("opcode") == "&" else {}
+                if gm is None or loc.get("kind") != "DeclRefExpr" or loc["referencedDecl"]["name"] not in env or \
+                        not env[loc["referencedDecl"]["name"]]["init"] or self.ity(v0) is None:
+                    self.bad(s, "compare-exchange that is not `bool ok = atomic_compare_exchange_strong(&global.f, &local, v)`")
+                ln = loc["referencedDecl"]["name"]
+                des = self.e_val(inner[4], env)
+                if des.dep or des.safe is not None:
+                    self.bad(s, "compare-exchange with a state-dependent desired value")
+                env2 = dict(env)
+                g = self.gname(v0["name"])
+                env2[v0["name"]] = {"g": g, "cty": S._qt(v0), "init": True}
+                return "bind (cas_%s_%s %s %s) (fun r_ =>\nbind (eval (fun sx st => fst r_)) (fun %s =>\nbind (eval (fun sx st => snd r_)) (fun %s =>\n%s)))" % (
+                    gm[0], gm[1], env[ln]["g"], des.t, g, env[ln]["g"], self.stmts(rest, env2, kind))
+            self.bad(s, "atomic operation as an initialiser")
+    # ---- atomic_store(&global.f, v)
+    if k == "AtomicExpr":
+        inner = [c for c in s.get("inner", []) if isinstance(c, dict)]
+        a0 = S._strip(inner[0]) if inner else {}
+        gm = _global_member(a0["inner"][0]) if a0.get("kind") == "UnaryOperator" and a0.get("opcode") == "&" else None
+        if gm is None or len(inner) != 3 or S._qt(s).strip() != "void":
+            self.bad(s, "atomic statement other than atomic_store(&global.f, v)")
+        v = self.e_val(inner[2], env)
+        return self.needed(v.safe, "bind_ (set_%s_%s %s)\n(%s)" % (gm[0], gm[1], self.fn_of_state(v.t), self.stmts(rest, env, kind)))
+    # ---- strcpy(global.f, src)
+    if k == "CallExpr" and S._callee(s) == "strcpy":
+        a = s["inner"][1:]
+        gm = _global_member(a[0]) if len(a) == 2 else None
+        if gm is None:
+            self.bad(s, "strcpy whose destination is not a field of a global")
+        v = self.e_val(a[1], env)
+        return self.needed(v.safe, "bind_ (strcpy_%s_%s %s)\n(%s)" % (gm[0], gm[1], self.fn_of_state(v.t), self.stmts(rest, env, kind)))
+    # ---- memset(&rthread, 0, sizeof(rthread)) : the whole thread-local struct is zeroed
+    if k == "CallExpr" and S._callee(s) == "memset":
+        a = [S._strip(x) for x in s["inner"][1:]]
+        ok = len(a) == 3
+        if ok:
+            tgt = a[0]
+            while tgt.get("kind") in ("ImplicitCastExpr", "CStyleCastExpr", "ParenExpr"):
+                tgt = tgt["inner"][0]
+            ok = tgt.get("kind") == "UnaryOperator" and tgt.get("opcode") == "&"
+            if ok:
+                g = S._strip(tgt["inner"][0])
+                ok = g.get("kind") == "DeclRefExpr" and g.get("referencedDecl", {}).get("name") in GLOBALS
+                gname = g.get("referencedDecl", {}).get("name")
+            z = a[1]
+            ok = ok and z.get("kind") == "IntegerLiteral" and z.get("value") == "0"
+            sz = a[2]
+            ok = ok and sz.get("kind") == "UnaryExprOrTypeTraitExpr" and sz.get("name") == "sizeof"
+            if ok:
+                t = sz
+                while t.get("inner"):
+                    t = t["inner"][0]
+                ok = t.get("kind") == "DeclRefExpr" and t.get("referencedDecl", {}).get("name") == gname
+        if not ok:
+            self.bad(s, "memset that is not memset(&global, 0, sizeof(global))")
+        return "bind_ zero_%s\n(%s)" % (gname, self.stmts(rest, env, kind))
     # ---- DL_APPEND(rthread.cpus, cpu)
     if k == "DoStmt":
         name, args = self.macro_of(s)
@@ -279,6 +357,9 @@ def _stmts(self, ss, env, kind):
     # ---- if (C) die(...);
     if k == "IfStmt":
         parts = list(s["inner"])
+        if len(parts) == 3 and _is_die(parts[1]):
+            c = self.e_bool(parts[0], env)
+            return self.needed(c.safe, "ite %s\n(fail E_DIE)\n(%s)" % (self.fn_of_state(c.t), self.stmts([parts[2]] + rest, env, kind)))
         if len(parts) == 2 and _is_die(parts[1]):
             cond = _unparen(parts[0])
             if cond.get("kind") == "BinaryOperator" and cond.get("opcode") in ("!=", ">="):
@@ -330,10 +411,132 @@ def _bind_args(self, args, k):
     return "(%s)" % t if not t.startswith("(") else t
 
 
+
+LOOP_FUNCS = {"set_thread_cpus"}
+
+
+def _loop_function(self, fn):
+    """A function of EXACTLY this counted shape (anything else: UNSUPPORTED):
+         JSON_Value *V = json_value_init_array();            if (V == NULL) die(..);
+         JSON_Array *A = json_array(V);                       if (A == NULL) die(..);
+         for (struct T *c = <global>.<list>; c; c = c->next) {
+             JSON_Value *E = json_value_init_object();        if (E == NULL) die(..);
+             JSON_Object *O = json_object(E);                 if (O == NULL) die(..);
+             if (json_object_set_number(O, "k1", c->f1) != 0) die(..);   ... one per member, in this order
+             if (json_array_append_value(A, E) != 0) die(..);
+         }
+         if (json_object_dotset_value(<param>, "key", V) != 0) die(..);
+       -> array_of_list_loop <param> (str_lit key) (get_<global>_<list>_list) [(str_lit k1, fld_T_f1); ...]
+       (RtMetaPre.v: one object per list element in list order, members set in the order of the calls)."""
+    self.fn = fn
+    d = self.cg.clang_ast(self.tu_text, self.incs, fn, self.work)
+    params = [c for c in d["inner"] if c["kind"] == "ParmVarDecl"]
+    body = [c for c in d["inner"] if c["kind"] == "CompoundStmt"][0]
+
+    def bad(n, why):
+        self.bad(n, "loop function outside the counted shape: " + why)
+
+    def decl_call(st, callee, nargs):
+        if st.get("kind") != "DeclStmt" or len(st["inner"]) != 1 or st["inner"][0].get("kind") != "VarDecl":
+            bad(st, "expected a declaration initialised by %s" % callee)
+        v = st["inner"][0]
+        ini = [c for c in v.get("inner", []) if c.get("kind") != "FullComment"]
+        c = S._strip(ini[0]) if ini else {}
+        if c.get("kind") != "CallExpr" or S._callee(c) != callee or len(c["inner"]) - 1 != nargs:
+            bad(st, "expected %s" % callee)
+        return v["name"], c
+
+    def ref(n):
+        n = S._strip(n)
+        while n.get("kind") in ("ImplicitCastExpr", "ParenExpr"):
+            n = n["inner"][0]
+        return n["referencedDecl"]["name"] if n.get("kind") == "DeclRefExpr" else None
+
+    def null_die(st, name):
+        p = list(st.get("inner", [])) if st.get("kind") == "IfStmt" else []
+        c = _unparen(p[0]) if p else {}
+        if len(p) != 2 or not _is_die(p[1]) or c.get("kind") != "BinaryOperator" or c.get("opcode") != "==" or \
+                ref(c["inner"][0]) != name or not self.cg._is_null(c["inner"][1]):
+            bad(st, "expected `if (%s == NULL) die(..)`" % name)
+
+    def status_die(st, callee):
+        p = list(st.get("inner", [])) if st.get("kind") == "IfStmt" else []
+        c = _unparen(p[0]) if p else {}
+        ok = len(p) == 2 and _is_die(p[1]) and c.get("kind") == "BinaryOperator" and c.get("opcode") == "!="
+        call = S._strip(c["inner"][0]) if ok else {}
+        z = S._strip(c["inner"][1]) if ok else {}
+        if not ok or call.get("kind") != "CallExpr" or S._callee(call) != callee or z.get("kind") != "IntegerLiteral" or z.get("value") != "0":
+            bad(st, "expected `if (%s(..) != 0) die(..)`" % callee)
+        return call["inner"][1:]
+
+    ss = [x for x in body.get("inner", []) if x.get("kind") != "NullStmt"]
+    if len(params) != 1 or len(ss) != 6:
+        bad(body, "expected one parameter and six statements")
+    vname, _ = decl_call(ss[0], "json_value_init_array", 0)
+    null_die(ss[1], vname)
+    aname, c = decl_call(ss[2], "json_array", 1)
+    if ref(c["inner"][1]) != vname:
+        bad(ss[2], "json_array of another value")
+    null_die(ss[3], aname)
+    f = ss[4]
+    if f.get("kind") != "ForStmt":
+        bad(f, "expected the for loop")
+    fi = f["inner"]
+    init, cond, inc, lbody = fi[0], fi[2], fi[3], fi[4]
+    if init.get("kind") != "DeclStmt" or len(init["inner"]) != 1:
+        bad(f, "loop initialisation")
+    cv = init["inner"][0]
+    ini = [x for x in cv.get("inner", []) if x.get("kind") != "FullComment"]
+    gm = _global_member(ini[0]) if ini else None
+    tstruct = S._struct_of(S._qt(cv))
+    if gm is None or tstruct is None:
+        bad(f, "the loop does not start at a list held in a global")
+    cname = cv["name"]
+    if ref(cond) != cname:
+        bad(f, "loop condition is not the cursor")
+    i2 = S._strip(inc)
+    nx = S._strip(i2["inner"][1]) if i2.get("kind") == "BinaryOperator" and i2.get("opcode") == "=" else {}
+    if ref(i2.get("inner", [{}])[0]) != cname or nx.get("kind") != "MemberExpr" or nx.get("name") != "next" or not nx.get("isArrow") or ref(nx["inner"][0]) != cname:
+        bad(f, "loop step is not c = c->next")
+    ls = [x for x in lbody.get("inner", []) if x.get("kind") != "NullStmt"] if lbody.get("kind") == "CompoundStmt" else []
+    if len(ls) < 6:
+        bad(lbody, "loop body")
+    ename, _ = decl_call(ls[0], "json_value_init_object", 0)
+    null_die(ls[1], ename)
+    oname, c = decl_call(ls[2], "json_object", 1)
+    if ref(c["inner"][1]) != ename:
+        bad(ls[2], "json_object of another value")
+    null_die(ls[3], oname)
+    members = []
+    for st in ls[4:-1]:
+        a = status_die(st, "json_object_set_number")
+        key = S._strip(a[1])
+        fld = a[2]
+        while fld.get("kind") in ("ImplicitCastExpr", "ParenExpr", "CStyleCastExpr"):
+            fld = fld["inner"][0]
+        if len(a) != 3 or ref(a[0]) != oname or key.get("kind") != "StringLiteral" or _cstring(key) is None or \
+                fld.get("kind") != "MemberExpr" or not fld.get("isArrow") or ref(fld["inner"][0]) != cname or self.ity(fld) is None:
+            bad(st, "member that is not json_object_set_number(O, \"k\", c->f)")
+        members.append((_cstring(key), fld["name"]))
+    a = status_die(ls[-1], "json_array_append_value")
+    if len(a) != 2 or ref(a[0]) != aname or ref(a[1]) != ename:
+        bad(ls[-1], "the object is not appended to the array")
+    a = status_die(ss[5], "json_object_dotset_value")
+    key = S._strip(a[1])
+    if len(a) != 3 or ref(a[0]) != params[0]["name"] or key.get("kind") != "StringLiteral" or _cstring(key) is None or ref(a[2]) != vname:
+        bad(ss[5], "the array is not stored with json_object_dotset_value(param, \"key\", V)")
+    g = self.gname(params[0]["name"])
+    head = "(* %s: %s %s (counted loop) *)\n" % (self.relpath, fn, d["type"]["qualType"].replace("*", "ptr"))
+    return head + "Definition %s (%s : %s) : M unit :=\n  array_of_list_loop %s %s get_%s_%s_list\n    [%s].\n" % (
+        fn, g, self.gtype(params[0]), g, _str_term(_cstring(key)), gm[0], gm[1],
+        "; ".join("(%s, fld_%s_%s)" % (_str_term(k), tstruct, fl) for k, fl in members))
+
 _orig_function = S.GT.function
 
 
 def _function(self, fn, kind):
+    if fn in LOOP_FUNCS:
+        return _loop_function(self, fn)
     if kind != "mval":
         return _orig_function(self, fn, kind)
     self.fn = fn
@@ -373,6 +576,7 @@ def gen(work):
         "JSON_Value *": ("ptr_jvalue", True),
         "struct ovni_rcpu *": ("ptr_rcpu", True),
         "uint8_t *": ("ptr_bytes", True),
+        "void *": ("ptr_bytes", True),
     }
     S.STRUCTS = {}
     S.NONNULL_LINK = set()
@@ -380,10 +584,11 @@ def gen(work):
                      "json_object_dotset_value", "json_serialize_to_file_pretty"}
     S.PRIM_VALUE = {"json_value_get_object", "json_object_dotget_value", "json_value_get_type", "json_value_get_number",
                     "json_value_get_boolean", "json_value_get_string", "json_value_init_object", "json_parse_string",
-                    "json_serialize_to_string", "strlen", "strpbrk"}
+                    "json_serialize_to_string", "strlen", "strpbrk", "malloc"}
     S.PRIM_ALLOC = set()
     # calls whose effect is outside the metadata state (event buffer, file descriptors, relocation): identity in RtMetaPre.v
-    S.PRIM_PROC = {"set_thread_cpus", "free", "close", "move_thdir_to_final", "try_clean_dir"}
+    S.PRIM_PROC = {"free", "close", "move_thdir_to_final", "try_clean_dir",
+                   "create_thread_dir", "create_trace_stream", "write_stream_header", "create_proc_dir"}
     S.OUT_ACTION = {}
     S.BYREF_READ = set()
     S.INDIRECT_CALLS = {}
